@@ -10,11 +10,14 @@ border  : get_border_point(angle, ratio): on the boundary, in exactly the
           requested direction, linear in the ratio.
 users   : add_random_user(s) / add_random_user(s)_in_sector: count, minimum
           distance to the centre, inside the cell (global numpy RNG seeded
-          from the case).
+          from the case; a 120 s watchdog turns a non-terminating rejection
+          loop into a violation instead of a hung run).
 cluster : Cluster of hexagon / 3-sector / square cells: congruent cells,
           centred on the cluster position, nearest neighbours at exactly two
           apothems (one side), neighbours share an edge, nothing overlaps,
-          user-to-cell distance matrices, users inside their cells.
+          user-to-cell distance matrices, users inside their cells; for 19
+          hexagonal cells also the ring of 42 wrapped cells (congruent,
+          continues the lattice).
 cluster_enum : every supported (cell type, size) x a fixed set of rotations,
           positions and radii, enumerated completely.
 pp      : generate_random_points_in_circle / _in_rectangle.
@@ -41,7 +44,8 @@ RULE = ("shape = class (Hexagon, Rectangle aspect 1..8, Circle, Cell, "
         "scaled vertices; angles in [-720,720], ratios in [0,1]; users 1..6 "
         "(20 thorough) with min_dist_ratio in [0,0.7]; clusters of "
         "1,3,4,7,13,19 hexagon/3-sector and 1,4,9,16 square cells with 0..5 "
-        "users per cell. Non-trivial = contain: rotation not a multiple of "
+        "users per cell (19 hexagonal cells: optionally with the wrap-around "
+        "ring). Non-trivial = contain: rotation not a multiple of "
         "360 deg and a query point within 0.1 R of the boundary; border: "
         "rotation not a multiple of 360 deg (Circle: any); users: rotated "
         "cell with >= 1 user; cluster: >= 3 cells and rotation not a "
@@ -700,8 +704,10 @@ def _check_users(case, ctx):
         _check_user_positions(ctx, users, c, sr, 0.0, verts, L,
                               dict(tags, region="cell"))
     else:
-        _check_user_positions(ctx, users, pos, float(obj.radius), ratio,
-                              verts, L, tags, unrot)
+        # "radius" of a square cell of side R is its half diagonal
+        rad = R * math.sqrt(2.0) / 2.0 if cls == "CellSquare" else R
+        _check_user_positions(ctx, users, pos, rad, ratio, verts, L, tags,
+                              unrot)
 
 
 # ----------------------------------------------------------------------------
@@ -838,8 +844,9 @@ def _check_cluster(case, ctx):
         us = list(c.users)[nb[k]:]
         unrot = cen[k] + np.array(c.vertices_no_trans_no_rotation,
                                   dtype=complex)
-        _check_user_positions(ctx, us, cen[k], float(c.radius), ratio, V[k],
-                              L, dict(tags, cls=want_cls), unrot)
+        rad = R * math.sqrt(2.0) / 2.0 if ctype == "square" else R
+        _check_user_positions(ctx, us, cen[k], rad, ratio, V[k], L,
+                              dict(tags, cls=want_cls), unrot)
     # ring of wrapped cells (only implemented for 19 hexagonal cells): the
     # wrapped cells are congruent to the cell they wrap and continue the
     # lattice: nearest neighbour at 2 apothems, nothing closer
